@@ -742,6 +742,7 @@ class Path(parent.Geometry):
             vertices=copy.deepcopy(self.vertices),
             metadata=metadata,
             process=False,
+            vertex_attributes=copy.deepcopy(self.vertex_attributes),
         )
 
         cache = {}
